@@ -758,6 +758,14 @@ func (v *FnV) spCall(st *State, e *SExpr, sc *Scope) Value {
 		a := arg(0)
 		n, d := arg(1), arg(2)
 		return Value{T: tBool, S: sEq(sx("*", v.bigRat(st, a.S), sx("to_real", d.S)), sx("to_real", n.S))}
+	case "ipow":
+		// a^b for b >= 0 (the function behind the model of big.Int.Exp)
+		v.c.ipowFns()
+		return Value{T: nil, S: sx("ipow", arg(0).S, arg(1).S)}
+	case "ratfloat":
+		// the float64 big.Rat.Float64 returns for the value of p (the nearest double; abstract)
+		v.c.glob("r2f", "(declare-fun r2f (Real) F64)")
+		return Value{T: tFloat64, S: sx("r2f", v.bigRat(st, arg(0).S))}
 	case "rat_is_zero":
 		return Value{T: tBool, S: sEq(v.bigRat(st, arg(0).S), "0.0")}
 	case "strlt":
